@@ -50,7 +50,9 @@ func (l *Line) Insert(pos int, chars ...rune) {
 
 	switch {
 	case l.Len() == 0:
-		*l = chars
+		// The line must own its characters: the ones we are given may be
+		// those of a kill ring entry, which edits in place would alter.
+		*l = append(Line{}, chars...)
 	case pos < l.Len():
 		forward := string((*l)[pos:])
 		cut := string(append((*l)[:pos], chars...))
